@@ -267,6 +267,17 @@ def run_cases(ctx, n_models, n_states, seed_offset=0, spec_only=False):
       stack_hist[k] = stack_hist.get(k, 0) + 1
     for si in range(n_states):
       q, qd = modelgen.rand_state(rng, m.sys, q_range=Q_RANGE)
+      if si == n_states - 1:
+        # boundary root orientations: exact half turns (w = 0), w < 0, and axis-aligned quaternions are unit too
+        special = [[0., 1., 0., 0.], [0., 0., 1., 0.], [0., 0.6, 0., 0.8], [-0.5, 0.5, 0.5, -0.5], [1., 0., 0., 0.],
+                   [0., 0., 0., 1.]]
+        pos = 0
+        for t in m.sys.link_types:
+          if t == 'f':
+            q[pos + 3:pos + 7] = special[int(rng.integers(len(special)))]
+            pos += 7
+          else:
+            pos += int(t)
       # random joint-frame / world inputs (not generated by forward)
       jp_, jr_ = rand_tf(rng, m.n)
       ja, jv = rng.uniform(-1, 1, size=(m.n, 3)), rng.uniform(-1, 1, size=(m.n, 3))
